@@ -35,15 +35,17 @@ import (
 )
 
 type In struct {
-	Mode      string    `json:"mode"` // stress | backup | cancel | close-at | dropwriter
-	Layout    sw.Layout `json:"layout"`
-	Workers   int       `json:"workers"`
-	Seed      uint64    `json:"seed"`
-	DelayUS   int       `json:"delay_us"`   // max seeded delay at a hook point
-	CloseMS   int       `json:"close_ms"`   // Close is issued after this long
-	Closers   int       `json:"closers"`    // concurrent Close calls
-	LateClose bool      `json:"late_close"` // one more Close after the first returned
-	Preload   int       `json:"preload"`    // documents indexed before the workers start
+	Mode   string    `json:"mode"` // stress | bulk | backup | cancel | close-at | dropwriter
+	Layout sw.Layout `json:"layout"`
+	// scorch-disk: an explicit persister / merge-planner option set (instead of the one named by Layout.Opts)
+	Scorch    *scorchOpts `json:"scorch,omitempty"`
+	Workers   int         `json:"workers"`
+	Seed      uint64      `json:"seed"`
+	DelayUS   int         `json:"delay_us"`   // max seeded delay at a hook point
+	CloseMS   int         `json:"close_ms"`   // Close is issued after this long
+	Closers   int         `json:"closers"`    // concurrent Close calls
+	LateClose bool        `json:"late_close"` // one more Close after the first returned
+	Preload   int         `json:"preload"`    // documents indexed before the workers start
 	// cancel mode
 	NDocs    int `json:"ndocs,omitempty"`
 	CancelAt int `json:"cancel_at,omitempty"`
@@ -59,6 +61,61 @@ type In struct {
 	WriterNapUS int `json:"writer_nap_us,omitempty"`
 	// the reading goroutine also forces merges
 	ForceMerges bool `json:"force_merges,omitempty"`
+	// documents per batch: BatchMin..BatchMax (0: the 2-4 of the stress mix).  In bulk mode the first
+	// Writers goroutines do nothing but issue such batches, one after the other
+	BatchMin int `json:"batch_min,omitempty"`
+	BatchMax int `json:"batch_max,omitempty"`
+}
+
+// scorchOpts is a scorchPersisterOptions / scorchMergePlanOptions pair (zero merge-planner fields
+// keep the library defaults).
+type scorchOpts struct {
+	NapUnder    int     `json:"nap_under"` // PersisterNapUnderNumFiles: with at least this many files the persister waits for the merger
+	NapMS       int     `json:"nap_ms"`    // PersisterNapTimeMSec
+	PWorkers    int     `json:"pworkers"`  // NumPersisterWorkers
+	MaxMem      int     `json:"max_mem"`   // MaxSizeInMemoryMergePerWorker
+	SegsPerTier int     `json:"segs_per_tier,omitempty"`
+	TierGrowth  float64 `json:"tier_growth,omitempty"`
+	SegsPerTask int     `json:"segs_per_task,omitempty"`
+	FloorSize   int64   `json:"floor_size,omitempty"`
+	// a slow merger: the index's event callback sleeps up to this long before every merge round
+	// (EventKindPreMergeCheck) and turns one round in four down (the merger then asks again)
+	SlowMergerUS int `json:"slow_merger_us,omitempty"`
+}
+
+// randScorchOpts draws an option set; pausing = the persister is made to wait for the merger (low
+// PersisterNapUnderNumFiles) and the merger is kept busy (it merges whenever there are two segments).
+func randScorchOpts(r *vrand.R, pausing bool) *scorchOpts {
+	o := &scorchOpts{
+		NapUnder: vrand.Pick(r, []int{0, 1, 1, 2, 3, 5, 1000}),
+		NapMS:    vrand.Pick(r, []int{0, 0, 1, 5}),
+		PWorkers: vrand.Pick(r, []int{1, 1, 2, 4}),
+	}
+	if o.PWorkers > 1 {
+		o.MaxMem = vrand.Pick(r, []int{1, 1000, 100000})
+	} else {
+		o.MaxMem = vrand.Pick(r, []int{0, 0, 1, 1000})
+	}
+	switch r.Intn(5) {
+	case 0: // library defaults
+	case 1: // merges as soon as there are two segments, two at a time: a merger that is always busy
+		o.SegsPerTier, o.SegsPerTask, o.FloorSize = 1, 2, 1
+	case 2:
+		o.SegsPerTier, o.TierGrowth, o.SegsPerTask, o.FloorSize = 2, 2.0, 3, 1
+	case 3: // few, large merges
+		o.SegsPerTier, o.TierGrowth, o.SegsPerTask, o.FloorSize = 1, 3.0, 8, 1
+	case 4: // merges deferred until many segments have piled up
+		o.SegsPerTier, o.SegsPerTask, o.FloorSize = 6, 6, 1
+	}
+	o.SlowMergerUS = vrand.Pick(r, []int{0, 0, 2000, 10000, 30000})
+	if pausing {
+		o.SlowMergerUS = vrand.Pick(r, []int{5000, 20000, 40000})
+		o.NapUnder = vrand.Pick(r, []int{1, 1, 2, 3})
+		if o.SegsPerTier == 0 || o.SegsPerTier > 2 {
+			o.SegsPerTier, o.SegsPerTask, o.FloorSize = 1, vrand.Pick(r, []int{2, 3, 8}), 1
+		}
+	}
+	return o
 }
 
 type opRec struct {
@@ -90,15 +147,16 @@ type childOut struct {
 	Cancelled  bool `json:"cancelled"`
 	CountAfter int  `json:"count_after"`
 	// statistics
-	PostCloseOps int  `json:"post_close_ops"`
-	OverlapOps   int  `json:"overlap_ops"`
-	Merges       int  `json:"merges"`
-	Persists     int  `json:"persists"`
-	ClosedAtHook bool `json:"closed_at_hook"`
-	CopiesOK     int  `json:"copies_ok"`   // backup mode: CopyTo calls that returned nil
-	SyncRounds   int  `json:"sync_rounds"` // backup mode: rounds in which all copiers entered CopyTo together
-	MaxFlight    int  `json:"max_flight"`  // backup mode: most CopyTo calls in progress at one moment
-	ZapRemoved   int  `json:"zap_removed"` // segment files the purger removed during the run
+	PostCloseOps    int  `json:"post_close_ops"`
+	OverlapOps      int  `json:"overlap_ops"`
+	Merges          int  `json:"merges"`
+	Persists        int  `json:"persists"`
+	ClosedAtHook    bool `json:"closed_at_hook"`
+	CopiesOK        int  `json:"copies_ok"`        // backup mode: CopyTo calls that returned nil; bulk mode: batches that returned nil
+	SyncRounds      int  `json:"sync_rounds"`      // backup mode: rounds in which all copiers entered CopyTo together
+	MaxFlight       int  `json:"max_flight"`       // backup mode: most CopyTo calls in progress at one moment; bulk mode: most Batch calls
+	PersisterPauses int  `json:"persister_pauses"` // bulk mode: times the persister began to wait for the merger
+	ZapRemoved      int  `json:"zap_removed"`      // segment files the purger removed during the run
 }
 
 var opNames = map[string]string{
@@ -122,12 +180,22 @@ func gen(f vh.Flags, r *vrand.R, emit func(In)) {
 	n := f.N(6, 240)
 	for k := 0; k < n; k++ {
 		l := layouts[k%len(layouts)]
+		var so *scorchOpts
 		if f.Tier == "thorough" && l.Config == "scorch-disk" {
 			l.Opts = r.Intn(5)
 			l.Unsafe = r.Chance(1, 2)
 		}
-		emit(In{Mode: "stress", Layout: l, Workers: r.Range(5, 8), Seed: r.U64(), DelayUS: vrand.Pick(r, []int{0, 100, 400, 1500}),
-			CloseMS: r.Range(120, 700), Closers: vrand.Pick(r, []int{1, 1, 2, 3}), LateClose: r.Chance(1, 2), Preload: r.Range(10, 60)})
+		// every other scorch-disk run gets a random persister / merge-planner option set
+		if l.Config == "scorch-disk" && k%4 == 2 {
+			so = randScorchOpts(r, r.Chance(1, 2))
+		}
+		in := In{Mode: "stress", Layout: l, Scorch: so, Workers: r.Range(5, 8), Seed: r.U64(), DelayUS: vrand.Pick(r, []int{0, 100, 400, 1500}),
+			CloseMS: r.Range(120, 700), Closers: vrand.Pick(r, []int{1, 1, 2, 3}), LateClose: r.Chance(1, 2), Preload: r.Range(10, 60)}
+		// one run in four issues large batches (more than the 64 analysis results an index may buffer)
+		if r.Chance(1, 4) {
+			in.BatchMin, in.BatchMax = 40, 200
+		}
+		emit(in)
 	}
 	// Close issued exactly at a rendezvous of the background loops (the goroutine at the hook is held)
 	points := []struct {
@@ -157,7 +225,24 @@ func gen(f vh.Flags, r *vrand.R, emit func(In)) {
 	}
 	// the DropFileWriterIDs error path (outside C11's operation list; its own class)
 	emit(In{Mode: "dropwriter", Layout: sw.Layout{Config: "scorch-disk", Unsafe: true}, Seed: r.U64()})
-	// (emitted last: the inputs above are the same as before this kind of run existed)
+	// bulk loading: 2-6 goroutines do nothing but issue batches of 65-300 documents, one after the
+	// other, a reader searches and counts, and Close comes in the middle of it (no settle time).  On
+	// the upsidedown stores, and on scorch with option sets under which the persister has to wait for
+	// the merger
+	bulk := []sw.Layout{{Config: "udc-gtreap"}, {Config: "scorch-disk", Unsafe: true}, {Config: "udc-boltdb"}, {Config: "scorch-disk"},
+		{Config: "udc-moss"}, {Config: "scorch-mem"}}
+	nbulk := f.N(2, 36)
+	for k := 0; k < nbulk; k++ {
+		l := bulk[k%len(bulk)]
+		var so *scorchOpts
+		if l.Config == "scorch-disk" {
+			so = randScorchOpts(r, true)
+		}
+		wr := r.Range(2, 6)
+		emit(In{Mode: "bulk", Layout: l, Scorch: so, Workers: wr + 1, Writers: wr, BatchMin: 65, BatchMax: 300, Seed: r.U64(),
+			DelayUS: vrand.Pick(r, []int{0, 0, 100}), CloseMS: r.Range(300, 800), Closers: vrand.Pick(r, []int{1, 1, 2}), LateClose: r.Chance(1, 2),
+			Preload: r.Range(10, 40)})
+	}
 	// concurrent online backups: 3-4 goroutines call CopyTo in tight loops (two calls of three entered
 	// together) while writers with small persister / merge-plan options and forced merges keep the
 	// merger and the purger busy (files that left the root are what removeOldZapFiles looks up in the
@@ -294,6 +379,13 @@ func exec1(in In) vh.Result {
 		if in.Mode == "close-at" {
 			res.Hist = append(res.Hist, fmt.Sprintf("closed_at:%s=%v", in.Point, out.ClosedAtHook))
 			res.Nontrivial = out.ClosedAtHook
+		} else if in.Mode == "bulk" {
+			res.Hist = append(res.Hist, fmt.Sprintf("bulk:batches_in_flight=%d", min(out.MaxFlight, 4)), fmt.Sprintf("bulk:batches~%d", out.CopiesOK/10*10))
+			if in.Scorch != nil {
+				res.Hist = append(res.Hist, fmt.Sprintf("bulk:closed_while_persister_waits_for_merger=%v", out.ClosedAtHook),
+					fmt.Sprintf("bulk:persister_waited_for_merger=%v", out.PersisterPauses > 0))
+			}
+			res.Nontrivial = out.MaxFlight >= 2 && out.CopiesOK >= 4 && out.PostCloseOps >= 3 && out.OverlapOps >= 1
 		} else if in.Mode == "backup" {
 			res.Hist = append(res.Hist, fmt.Sprintf("backup:copies~%d", out.CopiesOK/20*20), fmt.Sprintf("backup:sync_rounds>=2=%v", out.SyncRounds >= 2),
 				fmt.Sprintf("backup:max_in_flight=%d", out.MaxFlight), fmt.Sprintf("backup:purger_removed_files=%v", out.ZapRemoved > 0),
@@ -301,6 +393,12 @@ func exec1(in In) vh.Result {
 			res.Nontrivial = out.SyncRounds >= 2 && out.MaxFlight >= 2 && out.ZapRemoved > 0 && out.PostCloseOps >= 3
 		} else {
 			res.Nontrivial = out.PostCloseOps >= 3 && out.OverlapOps >= 1
+		}
+		if in.Scorch != nil {
+			res.Hist = append(res.Hist, "scorch_option_set", fmt.Sprintf("persister_nap_under_files<=3=%v", in.Scorch.NapUnder >= 1 && in.Scorch.NapUnder <= 3))
+		}
+		if in.BatchMax > 0 {
+			res.Hist = append(res.Hist, "large_batches")
 		}
 		if len(out.OtherErrs) > 0 {
 			res.Hist = append(res.Hist, "other_errors")
@@ -444,10 +542,12 @@ func main() {
 		CheckFn:   "CorrTrace.check",
 		ExplainFn: "CorrTrace.explain",
 		Rule: "stress: 5-8 goroutines issue random public operations (Index, Delete, Batch, SetInternal, Search, Search with a 0-3 ms deadline, SearchInContext cancelled after 0-500 us, Document, DocCount, FieldDict, Fields, GetInternal, Stats/StatsMap, ForceMerge via Advanced, CopyTo) on scorch-disk (4 option variants, safe/unsafe), scorch-mem and upsidedown (gtreap, moss, boltdb), with seeded delays of up to 1.5 ms at every scorch hook point; Close is issued after 120-700 ms by 1-3 concurrent closers, optionally once more afterwards, and the workers go on for at least 3 operations each after it returned; every run is a child process built with -race. " +
+			"Every other scorch-disk stress run uses a random scorchPersisterOptions / scorchMergePlanOptions set (PersisterNapUnderNumFiles 0-5 or 1000, PersisterNapTimeMSec 0-5, NumPersisterWorkers 1-4, MaxSizeInMemoryMergePerWorker, five merge-planner shapes from 'always merging' to 'merges deferred', a merger slowed and turned down at EventKindPreMergeCheck by up to 30 ms; half of them with PersisterNapUnderNumFiles 1-3 and a slow busy merger, so that the persister waits for the merger); one stress run in four issues batches of 40-200 documents. " +
+			"bulk: 2-6 goroutines do nothing but issue batches of 65-300 documents one after the other on upsidedown (gtreap, boltdb, moss), scorch-disk (option sets under which the persister waits for the merger; Close is then issued at a moment at which it is waiting) and scorch-mem, a reader searches and counts; Close after 0.3-0.8 s in the middle of the load (later, up to 2.5 s, until as many batches as writers are through and two were in progress at once). " +
 			"backup (scorch-disk, small persister / merge-plan options, numSnapshotsToKeep 1): 3-4 goroutines call CopyTo to distinct directories in tight loops, two calls of three entered together through a gate, while 2-3 writers issue small batches, updates and deletions (pausing up to 0.5-4 ms) and one goroutine searches, counts and (every other run) forces merges; Close after 0.5-0.9 s (later, up to 2 s, while fewer than 4 rounds of copiers entering together or fewer than 2 files removed by the purger have been seen), all go on for at least 4 operations afterwards; a runtime 'fatal error: concurrent map ...' of the child counts as a data race. " +
 			"close-at: Close is issued exactly when a background loop reaches a named hook point (persist_prepared, merge_start, persist_pick, ...) and that goroutine is held for 40 ms. cancel: n = 1100-3300 matching documents, the context is cancelled by the hit handler at its c-th call (c in 1..n+200; in every other case c <= 1024, so that the collector must notice); handled hits and the result are compared with the collector model. " +
 			"A search that returned the context's error or none more than max(2 s, 20 x the worst goroutine wake-up latency measured in the child meanwhile) after the later of the cancellation and its entry into the index (first look at the context's values, which indexImpl does right after taking the read lock) is reported as cancel-slow; hook-event traces go to the protocol monitor with one hidden ForceMerge caller machine per ForceMerge call issued. " +
-			"Non-trivial: (stress) at least 3 operations were started after Close returned and at least one overlapped it; (backup) at least 2 rounds in which all copiers entered CopyTo together, at least 2 CopyTo calls in progress at one moment, the purger removed at least one segment file during the run and at least 3 operations were started after Close returned; (close-at) Close was issued at the hook; (cancel) the search was cancelled",
+			"Non-trivial: (stress) at least 3 operations were started after Close returned and at least one overlapped it; (bulk) two batches in progress at one moment, at least 4 batches completed, at least 3 operations started after Close returned and one overlapping it; (backup) at least 2 rounds in which all copiers entered CopyTo together, at least 2 CopyTo calls in progress at one moment, the purger removed at least one segment file during the run and at least 3 operations were started after Close returned; (close-at) Close was issued at the hook; (cancel) the search was cancelled",
 		ShardSize: 4,
 		Workers:   2,
 	}, gen, exec1)
